@@ -9,7 +9,7 @@ RULE = ("(R1-R3) BlockRngCore::generate is value-numbered on a symbolic 1024-wor
         "then folds and the 16 results, the 16 updated table words and the new counter must be identical (normal forms, the h1/h2 look-ups "
         "as select terms) to 16 reference steps i = 16k .. 16k+15 of Wu's specification on the same table; (R4) Hc128Core::init on eight "
         "symbolic key/IV words must give the table obtained from the reference expansion W_0..W_1279 (P = W[256..768), Q = W[768..1280)) "
-        "followed by 1024 feedback steps, counter 0; (R5) from_seed decodes eight little-endian words (first four the key) and the wrapper "
+        "followed by 1024 feedback steps, counter 0 (mod 1024); (R5) from_seed decodes eight little-endian words (first four the key) and the wrapper "
         "delegates to BlockRng")
 EXPLANATION = ("Every 16-word block from every table state and every counter residue equals the specification's 16 steps, and the initial "
                "table equals the specification's for every key/IV; whole-keystream equality is the induction over blocks (BlockRng hands "
@@ -19,7 +19,7 @@ EXPLANATION = ("Every 16-word block from every table state and every counter res
 def table_layout(g):
     """-> (indices of the table field(s), index of the counter): one [u32; 1024] field, or two [u32; 512] fields (P, then Q)"""
     fields = g.adt["variants"][0]["fields"]
-    iC = sq.find_field(g.adt, "counter1024", r"usize")
+    iC = sq.find_field(g.adt, "counter1024", r"usize|u16|u32|u64")
     halves = [i for i, f in enumerate(fields) if f["ty"] == "[u32; 512]"]
     if len(halves) == 2 and not any(f["ty"] == "[u32; 1024]" for f in fields):
         return tuple(halves), iC
@@ -34,7 +34,11 @@ def check_generate(chk, crate, tier):
     where = body["span"][0]
     iTs, iC = table_layout(g)
     nf = len(g.adt["variants"][0]["fields"])
-    q = T.sym("q", 54)
+    # width of the step counter as declared (usize today)
+    cw = crate.evaluator().scalar_width(g.adt["variants"][0]["fields"][iC]["tyid"])
+    if cw is None or cw < 12:
+        raise Anchor("step counter of Hc128Core is not an integer of at least 12 bits")
+    q = T.sym("q", cw - 10)
     bad_res, bad_tab, bad_ctr, errors = [], [], [], []
     nblocks = 0
     for k in range(64):
@@ -44,7 +48,7 @@ def check_generate(chk, crate, tier):
             tabs = [ArrV(1024, 32, None, T.arr_sym("t", 1024, 32), {})]
         else:
             tabs = [ArrV(512, 32, None, T.arr_sym("p", 512, 32), {}), ArrV(512, 32, None, T.arr_sym("q", 512, 32), {})]
-        ctr = T.xor(T.shl(T.zext(q, 64), 10), T.const(16 * k, 64))
+        ctr = T.xor(T.shl(T.zext(q, cw), 10), T.const(16 * k, cw))
         selfv = [None] * nf
         for i_, t_ in zip(iTs, tabs):
             selfv[i_] = t_
@@ -73,7 +77,7 @@ def check_generate(chk, crate, tier):
             if got_word(idx) is not tb.get(idx):
                 bad_tab.append((k, idx, T.diff(got_word(idx), tb.get(idx))))
                 break
-        if post.fields[iC] is not T.add(ctr, T.const(16, 64)):
+        if post.fields[iC] is not T.add(ctr, T.const(16, cw)):
             bad_ctr.append((k, T.show(post.fields[iC], 3)))
     chk.ob("R1", "Hc128Core::generate|all 64 counter residues analysable", not errors, "; ".join(errors[:3]), where=where, nontrivial=False)
     chk.ob("R2", "Hc128Core::generate|16 results of each of the 64 blocks of a table cycle equal the specification's keystream words",
@@ -119,8 +123,9 @@ def check_init(chk, crate):
     chk.ob("R4", "Hc128Core::from_seed|table = specification's expansion (key words 0-3, IV words 4-7) + 1024 feedback steps, for all 1024 words",
            not bad, "" if not bad else "first differing table word %d: %s" % (bad[0], T.diff(got_word(bad[0]), tb.get(bad[0]))), where=where,
            sample={"table_words": 1024, "t[0]": T.show(got_word(0), 2)})
-    okc = r.fields[iC] is T.const(0, 64)
-    chk.ob("R4", "Hc128Core::from_seed|step counter starts at 0", okc, T.show(r.fields[iC]), where=where, nontrivial=False)
+    # generate is decided for every multiple q of 1024 in the counter, so only the position within the table cycle matters
+    okc = isinstance(r.fields[iC], T.T) and T.trunc(r.fields[iC], 10) is T.const(0, 10)
+    chk.ob("R4", "Hc128Core::from_seed|step counter starts at position 0 of the table cycle (0 mod 1024)", okc, T.show(r.fields[iC]), where=where, nontrivial=False)
 
 
 def run(chk, tier):
